@@ -673,7 +673,14 @@ def run(check, unrecognised):
 			cases = cases[:len(results)]
 			break
 	raise_stack_limit()
-	models = coq_eval(PRELUDE, [result['expr'] for result in results], 'c18', shard=125 if check.tier == 'thorough' else 16)
+	exprs = [result['expr'] for result in results]
+	shard = 125 if check.tier == 'thorough' else 16
+	try:
+		models = coq_eval(PRELUDE, exprs, 'c18', shard=shard)
+	except RuntimeError as ex:
+		# a coqc killed from outside (memory pressure on a shared machine) is retried once; a genuine failure fails again
+		check.notes.append(f'model evaluation retried once after: {str(ex)[:200]}')
+		models = coq_eval(PRELUDE, exprs, 'c18', shard=shard)
 	failing = []
 	features = {}
 	for case, result, model in zip(cases, results, models):
